@@ -230,6 +230,14 @@ func genSimpleOp(r *Rng, hot bool, uid *byte, sizeOf func(uint64) uint64) *sOp {
 	}
 	offs := []uint64{0, 0, 1, 100, 2048, 4095, 4096, 4097}
 	cnts := []uint32{0, 1, 100, 2048, 4095, 4096, 4097}
+	if hot {
+		// requests the specification mostly accepts, piling up on few files
+		offs = []uint64{0, 0, 50, 100, 2048, 3000}
+		cnts = []uint32{1, 50, 100, 1000, 2048}
+		inums = []uint64{2, 2, 3, 3, 31}
+		o.Inum = r.Pick(inums)
+		o.FH = simpleFh(o.Inum, 16)
+	}
 	if !hot {
 		offs = append(offs, 8192, 1<<32, 1<<63, ^uint64(0), ^uint64(0)-4095)
 		cnts = append(cnts, 8192, 1<<31, ^uint32(0))
@@ -267,7 +275,7 @@ func genSimpleOp(r *Rng, hot bool, uid *byte, sizeOf func(uint64) uint64) *sOp {
 	case x < 78:
 		o.K = OpSetattr
 		o.SetSize = r.Intn(6) != 0
-		o.Size = r.Pick(append(offs, 50, 3000))
+		o.Size = r.Pick(append(offs, 50, 3000, 4096))
 	case x < 90:
 		o.K = OpGetattr
 	case x < 95:
@@ -384,7 +392,7 @@ func runSimple(seed uint64, cas int, tier string) *SimpleRes {
 				continue
 			}
 			childLog("simple image %s", j.desc)
-			key, err := recoverSimple(j.img)
+			key, err := recoverSimple(j.img, k%2 == 1)
 			res.Images++
 			if j.lo < j.hi {
 				res.InFlight++
@@ -405,9 +413,9 @@ func runSimple(seed uint64, cas int, tier string) *SimpleRes {
 		}
 	}
 	// ---- 2. concurrent histories, linearizable per inode ---------------
-	nh := 30
+	nh := 80
 	if tier == "thorough" {
-		nh = 150
+		nh = 400
 	}
 	for h := 0; h < nh && len(res.Viol) == 0; h++ {
 		childLog("simple history %d", h)
@@ -436,14 +444,21 @@ func simpleArgClass(o *sOp) string {
 }
 
 // recoverSimple recovers an image with simple.Recover and reads all files.
-func recoverSimple(img map[uint64][]byte) (key string, errmsg string) {
+// viaMakeNfs: restart through simple.MakeNfs (what cmd/simple-nfsd does on
+// every start) instead of simple.Recover.
+func recoverSimple(img map[uint64][]byte, viaMakeNfs bool) (key string, errmsg string) {
 	defer func() {
 		if e := recover(); e != nil {
 			errmsg = fmt.Sprintf("panic while recovering/reading: %v", e)
 		}
 	}()
 	d := NewCDiskFrom(2000, img)
-	srv := simple.Recover(d)
+	var srv *simple.Nfs
+	if viaMakeNfs {
+		srv = simple.MakeNfs(d)
+	} else {
+		srv = simple.Recover(d)
+	}
 	m := &simpleModel{}
 	for i := uint64(2); i < simpleNInode; i++ {
 		ga := doSimple(srv, &sOp{K: OpGetattr, FH: simpleFh(i, 16)})
@@ -639,19 +654,32 @@ func runKvs(seed uint64, cas int, tier string) *KvsRes {
 		d.Mark(EvCall, i)
 		if i%20 == 7 {
 			// a multi-put of many keys (still one journal transaction)
-			n := []int{257, 300, 400, 500}[rng.Intn(4)]
+			n := []int{257, 300, 400, 500, 511, 512, 513, 600}[rng.Intn(8)]
 			var pairs []kvs.KVPair
 			id := next
 			next++
 			for j := 0; j < n; j++ {
 				pairs = append(pairs, kvs.KVPair{Key: bigLo + uint64(j), Val: kvVal(id)})
 			}
-			if !kv.MultiPut(pairs) {
+			ok := kv.MultiPut(pairs)
+			if !ok && n <= 511 {
 				viol("MultiPut of %d pairs fails", n)
 			}
+			// a put that does not fit one journal operation may be refused, but
+			// then it must have no effect; an answer of true means installed
+			if ok {
+				for _, k := range keys {
+					if k >= bigLo && k < bigLo+uint64(n) {
+						st[k] = id
+					}
+				}
+			}
 			for _, k := range keys {
-				if k >= bigLo && k < bigLo+uint64(n) {
-					st[k] = id
+				if p, gok := kv.Get(k); true {
+					if gid, wf := kvID(p.Val); !gok || !wf || gid != st[k] {
+						viol("after MultiPut of %d keys answered %v: Get(%d) returns id %d (well-formed %v), expected %d", n, ok, k, gid, wf, st[k])
+						break
+					}
 				}
 			}
 			oplog = append(oplog, fmt.Sprintf("MultiPut of %d keys [%d,%d) id=%d", n, bigLo, bigLo+uint64(n), id))
@@ -812,6 +840,10 @@ func runKvsHistory(rng *Rng, res *KvsRes, viol func(string, ...interface{})) {
 	var wg sync.WaitGroup
 	clients := 3 + rng.Intn(2)
 	var idctr uint64
+	lastPut := make([]map[uint64]uint64, clients)
+	for c := range lastPut {
+		lastPut[c] = map[uint64]uint64{}
+	}
 	for c := 0; c < clients; c++ {
 		wg.Add(1)
 		cr := rng.Sub(uint64(c) + 11)
@@ -832,6 +864,10 @@ func runKvsHistory(rng *Rng, res *KvsRes, viol func(string, ...interface{})) {
 						mu.Lock()
 						idctr++
 						id := idctr
+						if prev, ok := lastPut[c][keys[pi]]; ok && r.Intn(3) == 0 {
+							id = prev // put again what this client put there before (possibly still the current value)
+						}
+						lastPut[c][keys[pi]] = id
 						mu.Unlock()
 						o.Keys = append(o.Keys, keys[pi])
 						o.IDs = append(o.IDs, id)
